@@ -23,9 +23,12 @@ def gen_pipeline(r):
         spec.append(('det',))
     k = r.random()
     nrng = 0
-    if k < 0.25:
+    if k < 0.2:
         spec.append(('once', r.randint(0, 999)))
-    elif k < 0.7:
+    elif k < 0.38:
+        nrng += 1
+        spec.append(('apply', nrng))
+    elif k < 0.75:
         nrng += 1
         spec.append(('reshuffle', nrng))
         if r.random() < 0.4:
@@ -38,7 +41,7 @@ def gen_pipeline(r):
     if r.random() < 0.4:
         spec.append(('det',))
     if r.random() < 0.35:
-        spec.append(('prefetch', 1 if any(s[0] == 'local' for s in spec) else r.choice([1, 2])))
+        spec.append(('prefetch', 1 if any(s[0] in ('local', 'apply') for s in spec) else r.choice([1, 2])))
     return spec, nrng
 
 
@@ -62,9 +65,17 @@ def build(ld, spec, rngs):
             ds = ds.shuffle(True, rng=rngs[st[1]])
         elif st[0] == 'local':
             ds = ds.shuffle(True, rng=rngs[st[1]], buffer_size=st[2])
+        elif st[0] == 'apply':
+            ds = ds.apply(ApplyShuffle(rngs[st[1]]), lazy=True)
         elif st[0] == 'prefetch':
             ds = ds.prefetch(st[1], st[1] + 1)
     return ds, once
+
+
+class ApplyShuffle:
+    """the function handed to apply(..., lazy=True): adds a per-epoch reshuffle drawing from the given generator"""
+    def __init__(self, rng): self.rng = rng
+    def __call__(self, ds): return ds.shuffle(True, rng=self.rng)
 
 
 def coq_rds(spec, once):
@@ -75,6 +86,7 @@ def coq_rds(spec, once):
         elif st[0] == 'once': t = f'(XShuffleOnce {nl(once[id(st)])} {t})'
         elif st[0] == 'reshuffle': t = f'(XReShuffle {st[1]}%nat {t})'
         elif st[0] == 'local': t = f'(XLocal {st[1]}%nat {st[2]}%nat {t})'
+        elif st[0] == 'apply': t = f'(XApply {st[1]}%nat {t})'
         elif st[0] == 'prefetch': t = f'(XPrefetch {t})'
     return t
 
@@ -138,13 +150,25 @@ def run(tier):
             if any(s[0] == 'once' for s in spec) and not any(s[0] in ('reshuffle', 'local') for s in spec):
                 if any(o != orders[0] for o in orders):
                     failures.append(dict(kind='program', summary=f'one-time shuffle changes between epochs: {spec}: {orders}', config=dict(spec=spec, seeds=seeds, m=m)))
-            if spec[-1][0] == 'reshuffle':
-                fz = ds.copy(freeze=True)
-                of = [[int(x) for x in fz] for _ in range(3)]
-                if of[0] != of[1] or of[1] != of[2] or sorted(of[0]) != list(range(spec[0][1])):
-                    failures.append(dict(kind='program', summary=f'copy(freeze=True) of a reshuffle is not frozen: {of}', config=dict(spec=spec, seeds=seeds, m=m)))
+            if any(s[0] in ('reshuffle', 'apply') for s in spec) and not any(s[0] in ('local', 'prefetch') for s in spec):
+                # copy(freeze=True) of a per-epoch reshuffle (also a lazily applied one, at any depth below deterministic
+                # stages) iterates in one fixed order forever
+                try:
+                    fz = ds.copy(freeze=True)
+                    of = [[int(x) for x in fz] for _ in range(3)]
+                except Exception as e:
+                    of = [f'raised {type(e).__name__}'] * 3 + ['x']
+                if len(of) != 3 or of[0] != of[1] or of[1] != of[2] or sorted(of[0]) != list(range(spec[0][1])):
+                    failures.append(dict(kind='program', summary=f'copy(freeze=True) of {spec} is not frozen: {of}', config=dict(spec=spec, seeds=seeds, m=m)))
+                # catch() freezes its input on every iteration and then indexes it
+                try:
+                    oc = sorted(int(x) for x in ds.catch())
+                except Exception as e:
+                    oc = f'raised {type(e).__name__}'
+                if oc != list(range(spec[0][1])):
+                    failures.append(dict(kind='program', summary=f'catch() over {spec} (it iterates a frozen copy): {oc}', config=dict(spec=spec, seeds=seeds, m=m)))
             # (4) reshuffling datasets report themselves unordered
-            if any(s[0] in ('reshuffle', 'local') for s in spec) and spec[-1][0] != 'prefetch':
+            if any(s[0] in ('reshuffle', 'local', 'apply') for s in spec) and spec[-1][0] != 'prefetch':
                 if ds.ordered:
                     failures.append(dict(kind='program', summary=f'a pipeline containing a per-epoch shuffle reports ordered=True: {spec}', config=dict(spec=spec, seeds=seeds, m=m)))
         # (5) copy() preserves every configuration parameter of every stage
